@@ -1,11 +1,89 @@
-import LiquidVerif.Lemmas.Escape
-/-! C05 — autoescape keeps render data from injecting HTML (first theorem; the file is extended below). -/
+import LiquidVerif.Lemmas.TaintRender
+/-!
+# C05 — autoescape keeps render data from injecting HTML
+
+Model: `Model/Escape.lean` (markupsafe's escape table, `Clean`, `Ent`) and `Model/Taint.lean` (values `{chars, safe}`,
+39 filters, 10 tags, `render`). `P : Prims` are the opaque text functions (`html.unescape`, the `HTMLParser` behind
+`strip_tags`, `urllib.parse.unquote`, base64, `str(list)`): every theorem holds for all of them.
+
+Hypotheses of the property's first sentence, as decidable predicates on a template: `nodesOk t` — literal text and
+string literals contain no raw `<`, `>`, `'`, `"` (`isClean`), and neither the `safe` filter nor the HTML-generating
+`newline_to_br` is used (`FName.allowed`); `EnvInv d` — the values the caller explicitly marked safe (`Markup`,
+`__html__`) are themselves free of raw specials (otherwise they are, by the property's second sentence, output unchanged).
+-/
 namespace LiquidVerif.C05
-open LiquidVerif.Escape
+open LiquidVerif.Escape LiquidVerif.Taint
 
 /-- "text that comes from render data reaches the output only in HTML-escaped form": whatever the data string,
 `markupsafe.escape` emits no raw `<`, `>`, `'`, `"`, and every `&` it emits begins one of its five entities. -/
 theorem escape_clean (s : Str) : Clean (escape s) ∧ Ent (escape s) :=
   ⟨escape_isClean s, escape_isEnt s⟩
+
+/-- The three combinators every filter and tag is built from preserve "a `Markup` holds no raw special":
+`keepSafe f` for a special-preserving `f`, `mixEscaping` (`+`, `join`, `replace`), and anything returning a plain `str`. -/
+theorem combinators_preserve_inv :
+    (∀ (f : Str → Str) (s : TStr), (∀ c, Clean c → Clean (f c)) → s.Inv → (keepSafe f s).Inv) ∧
+    (∀ a b : TStr, a.Inv → b.Inv → (mixAdd a b).Inv) ∧
+    (∀ (sep : TStr) (items : List TStr), sep.Inv → (∀ x ∈ items, x.Inv) → (joinT sep items).Inv) ∧
+    (∀ (first : Bool) (s old new : TStr), s.Inv → new.Inv → (replaceT first s old new).Inv) ∧
+    (∀ c : Str, (⟨c, false⟩ : TStr).Inv) :=
+  ⟨fun _ _ hf h => keepSafe_inv hf h, fun _ _ => mixAdd_inv, fun _ _ => joinT_inv, fun f _ old _ => replaceT_inv f old,
+   inv_unsafe⟩
+
+/-- Every modelled filter except `safe` and `newline_to_br` — `escape escape_once join split replace* remove* append prepend
+slice strip_html url_decode base64_* default upcase downcase capitalize strip lstrip rstrip squish truncate truncatewords
+url_encode escapejs strip_newlines first last reverse concat size` — keeps the safe/unsafe distinction sound, for every
+receiver, every argument list and all opaque text functions. -/
+theorem filter_preserves_inv (P : Prims) (f : FName) (v : Val) (args : List Val) (r : Val)
+    (hf : f.allowed = true) (hv : v.Inv) (ha : ∀ a ∈ args, a.Inv) (h : applyFilter P true f v args = .ok r) : r.Inv :=
+  applyFilter_inv P hf hv ha h
+
+/-- Filter chains of any length, and ternary expressions (`a | f if c else b | g || tail`), preserve it. -/
+theorem expression_preserves_inv (P : Prims) (st : St) (e : Expr) (r : Val)
+    (hst : st.Inv) (he : e.ok = true) (h : evalExpr P true st e = .ok r) : r.Inv :=
+  evalExpr_inv P hst he h
+
+/-- `capture` stores the already-escaped buffer as `Markup`: after a capture block whose nodes satisfy the hypotheses,
+the state still satisfies the invariant — in particular the captured `Markup` is free of raw specials. -/
+theorem capture_safe (P : Prims) (name : String) (body : List Node) (st st' : St)
+    (hb : nodesOk body = true) (hst : st.Inv) (h : renderNode P true (.capture name body) st = .ok st') : st'.Inv :=
+  (render_inv_aux P).1 (.capture name body) st (by simpa [Node.ok] using hb) hst st' h
+
+/-- **First sentence of the property, raw-special part.** For every template `t` over output/echo, assign, capture, cycle,
+for, if/unless/case, include, render, translate with chains of any modelled filters, whose literal text is clean and which
+uses neither `safe` nor an HTML-generating filter, and for every render data `d` (strings, Markup, lists, numbers, objects
+with `__html__`): if the render succeeds, its output contains no raw `<`, `>`, `'` or `"`. No bound on sizes or depth. -/
+theorem output_no_raw_specials (P : Prims) (t : List Node) (d : Env) (out : Str)
+    (ht : nodesOk t = true) (hd : EnvInv d) (h : render P true t d = .ok out) : Clean out := by
+  unfold render at h
+  split at h
+  · rename_i st hst
+    simp only [Except.ok.injEq] at h; subst h
+    exact ((render_inv_aux P).2.2 t _ ht ⟨fun e he => (by cases he), fun p hp => (by cases hp), hd, clean_nil⟩ st hst).out
+  · cases h
+
+/-- **Second sentence.** A value explicitly marked safe is written unchanged: a `Markup`, an object with `__html__`, and a
+list of `Markup`s. -/
+theorem safe_values_unchanged (s h t : Str) (xs : List Str) :
+    outVal true (.str ⟨s, true⟩) = s ∧ outVal true (.obj h t) = h ∧
+    outVal true (.arr (xs.map fun x => ⟨x, true⟩)) = xs.flatten := by
+  refine ⟨rfl, rfl, ?_⟩
+  simp [outVal, escT, List.map_map, Function.comp_def]
+
+/-- … also at template level: `{{ x }}` with `x` bound to `Markup(s)` renders exactly `s`, for every `s` -/
+theorem safe_value_rendered_unchanged (P : Prims) (s : Str) :
+    render P true [.output (.chain (.var "x") [])] [("x", .str ⟨s, true⟩)] = .ok s := by
+  simp [render, renderNodes, renderNode, evalExpr, applyChain, evalArg, St.get, lookupScopes, lookupEnv, St.write, outVal, escT]
+
+/-- The hypothesis "no `safe` filter" is needed: `{{ x | safe }}` with `x = "<"` outputs a raw `<` (by design). -/
+theorem safe_filter_counterexample (P : Prims) :
+    render P true [.output (.chain (.var "x") [⟨.safe, []⟩])] [("x", .str ⟨['<'], false⟩)] = .ok ['<'] := by
+  simp [render, renderNodes, renderNode, evalExpr, applyChain, applyFilter, evalArg, St.get, lookupScopes, lookupEnv, St.write,
+    outVal, escT, okS, recvS]
+
+/-- Non-vacuity: a template with an escaped variable, a capture that is then upper-cased, a join with a data separator —
+the hypotheses hold and the render succeeds. -/
+example : nodesOk [.text "a".toList, .capture "c" [.output (.chain (.var "x") [⟨.append, [.lit "-".toList]⟩])],
+    .output (.chain (.var "c") [⟨.upcase, []⟩])] = true := by decide
 
 end LiquidVerif.C05
